@@ -180,3 +180,26 @@ package transaction
 //@ ensures[reader] old(br.r.pos) <= br.r.pos && io.validR(br)
 //@ loop 0 invariant io.validR(br) && same(br.r, old(br.r)) && old(br.r.pos) <= br.r.pos && same(t.Signers, t.Signers)
 //@ loop 1 invariant io.validR(br) && same(br.r, old(br.r)) && old(br.r.pos) <= br.r.pos
+
+// ---- nesting budget of witness conditions in their JSON form: every level of nesting, compound
+// or not, uses up one unit of the budget the binary decoder also works with, so JSON accepts no
+// condition that the binary form rejects for depth.
+//@ prop C17
+//@ func unmarshalArrayOfConditionJSONs
+//@ may-panic
+//@ opt frame off
+//@ opt callers trust
+//@ requires 0 < maxDepth && maxDepth <= MaxConditionNesting
+//@ call unmarshalConditionJSON requires[depth] arg1 == maxDepth - 1
+//@ func unmarshalConditionJSON
+//@ may-panic
+//@ opt frame off
+//@ opt callers trust
+//@ requires 0 <= maxDepth && maxDepth <= MaxConditionNesting
+//@ call unmarshalConditionJSON requires[depth] arg1 == maxDepth - 1
+//@ call unmarshalArrayOfConditionJSONs requires[depth] arg1 == maxDepth
+//@ ensures[budget] maxDepth <= 0 ==> result1 != nil
+//@ func UnmarshalConditionJSON
+//@ may-panic
+//@ opt frame off
+//@ call unmarshalConditionJSON requires[budget] arg1 == MaxConditionNesting
